@@ -163,6 +163,14 @@ class Spec:
             flat[0, 0, :] = 0.0
             flat[0, 0, :3] = [5.0, 3.0, 4.0]
             P = flat.reshape(tuple(shape) + self.unit)
+        if self.name == "segment" and int(abs(vals[0]) * 773) % 5 == 0 and cnt >= 1:
+            # a very short segment (3e-5): its ideal endpoints are as well defined as those
+            # of a long one, the discriminant behind them is just small
+            flat = P.reshape((cnt, self.rows, self.n + 1))
+            if abs(flat[0, 0, 0]) > 0 and np.sum(flat[0, 0, 1:] ** 2) < 0.8 * flat[0, 0, 0] ** 2:
+                flat[0, 1, :] = flat[0, 0, :]
+                flat[0, 1, 1] += 3e-5 * flat[0, 0, 0]
+            P = flat.reshape(tuple(shape) + self.unit)
         if int(abs(vals[1]) * 1009) % 3 == 0:
             # other representatives of the same points: negative and non-unit factors, row by
             # row (for a tangent vector: of the basepoint - the pair (-p, v) is the direction
@@ -732,8 +740,13 @@ def run_query(ctx, spec, op, X, pool, vals, kk):
             X.coords("klein")
     elif op == "q_distance":
         other = hyperbolic.Point(proj_of(far_pt(vals, n))[0])
+        # (the object asks once and is asked about once: a query that moved its receiver
+        # back and forth on every call would go unnoticed after an even number of calls)
         pts.distance(other)
-        pts.distance(pts)
+        other.distance(pts)
+        if kk % 2:
+            pts.distance(pts)
+            pts.distance(other)
     elif op == "q_origin_to":
         pts.origin_to()
         pts.origin_to(force_oriented=False)
@@ -845,7 +858,83 @@ def exhaustive_histories(tier):
 
 
 AUX = ["hpolygon", "ppolygon", "segment", "tangent"]
+# ---------------------------------------------------------------------------
+# the isometry as the object that is asked: fixed-point queries leave it what it was
+ISO_KINDS = ["rotation", "reflection", "loxodromic", "rotation_about_line", "identity",
+             "half_turn"]
+
+
+@st.composite
+def iso_query_case(draw):
+    n = draw(st.sampled_from([2, 2, 3, 3, 4]))
+    kind = draw(st.sampled_from(ISO_KINDS))
+    return dict(n=n, kind=kind, angle=draw(fl(0.2, 2.9)), l=draw(fl(0.3, 2.0)),
+                conj=[draw(fl(-0.6, 0.6)) for _ in range(n)],
+                order=list(draw(st.permutations([0, 1, 2]))), col=draw(st.booleans()))
+
+
+def body_iso_query(case, ctx):
+    n, kind = case["n"], case["kind"]
+    ctx.label("n=%d" % n, "kind=" + kind)
+    Iso = hyperbolic.Isometry
+    if kind == "rotation":
+        T0 = Iso.standard_rotation(case["angle"], n) if n >= 3 else \
+            Iso.standard_rotation(case["angle"])
+    elif kind == "reflection":
+        v = np.zeros(n + 1)
+        v[1] = 1.0
+        T0 = hyperbolic.Hyperplane(v).reflection_across()
+    elif kind == "loxodromic":
+        T0 = Iso.standard_loxodromic(n, math.exp(case["l"]))
+    elif kind == "rotation_about_line":
+        D = np.eye(n)
+        c, s_ = math.cos(case["angle"]), math.sin(case["angle"])
+        D[-2:, -2:] = [[c, -s_], [s_, c]]
+        T0 = Iso.elliptic(n, D)
+    elif kind == "half_turn":
+        D = np.eye(n)
+        D[0, 0] = D[1, 1] = -1.0
+        T0 = Iso.elliptic(n, D)
+    else:
+        T0 = Iso(np.eye(n + 1))
+    g = hyperbolic.Point(np.array(case["conj"]), model="klein").origin_to()
+    T = g @ T0 @ g.inv()
+    M0 = np.array(T.matrix, copy=True)
+    if case["col"]:
+        # the same map built from the caller's own column-convention array
+        arr = np.ascontiguousarray(M0.T)
+        T = Iso(arr, column_vectors=True)
+        keep = arr.copy()
+    queries = {0: "fixed_point", 1: "fixed_point_pair", 2: "axis"}
+    answers = {}
+    for rnd in (0, 1):
+        for qi in case["order"]:
+            q = queries[qi]
+            if q != "fixed_point" and kind != "loxodromic":
+                continue
+            try:
+                a = getattr(T, q)()
+            except Exception as ex:           # whether it answers is C15's business
+                a = type(ex).__name__
+            else:
+                a = np.array(a.proj_data, dtype=float)
+            if q in answers and not isinstance(a, str) and not isinstance(answers[q], str):
+                ctx.small("%s() asked twice gives the same point(s)" % q,
+                          proj_dist(a, answers[q]), 1e-9)
+            answers.setdefault(q, a)
+            ctx.close("the isometry is unchanged by %s()" % q, np.array(T.matrix), M0, rtol=0,
+                      atol=0)
+            if case["col"]:
+                ctx.check(np.array_equal(arr, keep), "the caller's matrix array is unchanged by "
+                          "%s()" % q)
+    if kind in ("reflection", "rotation_about_line", "identity", "half_turn"):
+        ctx.label("repeated-eigenvalue")
+
+
 LAWS = [
+    Law("isometry_queries_leave_it_alone", iso_query_case(), body_iso_query,
+        lambda l: "repeated-eigenvalue" in l or "kind=loxodromic" in l, quick=200, thorough=1500,
+        shards=(1, 4)),
     Law("object_history_aux_classes", history_case(AUX, 12), run_history, nt, quick=500,
         thorough=4000, shards=(4, 12)),
     Law("object_history_long", history_case(AUX, 30), run_history, nt, quick=100,
